@@ -262,6 +262,15 @@ def analyse(case, io):
             if t in done:
                 add("C10:single-assignment", "task-completed-twice", "task %s announced completion twice" % (list(t),))
             done[t] = a[1]
+            if t in last_yield and not openctx.get(t) and "maxstack" not in case.get("params", {}) \
+                    and not case.get("params", {}).get("reentrant"):
+                # the task was suspended at a yield and completed without its code running again: whatever it awaited was
+                # not delivered at the yield (a task holding no context can only be completed by its own code)
+                add("C02:exception-delivery", "completed-without-delivery-at-the-yield",
+                    "task %s completed with %s while suspended at yield #%d: the outcome of what it awaited never reached its code" % (
+                        list(t), a[1], last_yield[t][0]))
+                add("C03:step-sequence", "completed-while-suspended",
+                    "task %s completed with %s without being resumed after yield #%d" % (list(t), a[1], last_yield[t][0]))
             last_yield.pop(t, None)
             if a[1] == {"Err": [-7]}:
                 if t not in susp_nonasync and t not in received_na:
